@@ -1,5 +1,5 @@
 import OtelVerif.Common.Line
-import OtelVerif.Model.C08Conf
+import OtelVerif.Model.C08Txt
 import OtelVerif.Gen.OtlpSchema
 /-! driver for C08: model `c08-codec` (line protocol of `harness/c08`) -/
 open OtelVerif OtelVerif.Line OtelVerif.Proto OtelVerif.Wire OtelVerif.C08
@@ -112,66 +112,10 @@ where
     | .ocons k v t => (k, v) :: members t
     | _ => []
 
-/-! ## concrete text codecs -/
+/-! ## text codecs: the proved concrete ones of `Model/C08Txt.lean`; float text from the per-case tables -/
 
-def decDigits (n : Nat) : List Nat := (toString n).toList.map Char.toNat
-
-def undecDigits (t : List Nat) : Option Nat :=
-  if t.isEmpty ∨ !(t.all (fun c => 48 ≤ c ∧ c ≤ 57)) then none
-  else some (t.foldl (fun a c => a * 10 + (c - 48)) 0)
-
-def b64chars : Array Nat := ("ABCDEFGHIJKLMNOPQRSTUVWXYZabcdefghijklmnopqrstuvwxyz0123456789+/".toList.map Char.toNat).toArray
-
-def b64enc : List Nat → List Nat
-  | a :: b :: c :: rest =>
-    let n := a * 65536 + b * 256 + c
-    [b64chars[n / 262144 % 64]!, b64chars[n / 4096 % 64]!, b64chars[n / 64 % 64]!, b64chars[n % 64]!] ++ b64enc rest
-  | [a, b] =>
-    let n := a * 65536 + b * 256
-    [b64chars[n / 262144 % 64]!, b64chars[n / 4096 % 64]!, b64chars[n / 64 % 64]!, 61]
-  | [a] =>
-    let n := a * 65536
-    [b64chars[n / 262144 % 64]!, b64chars[n / 4096 % 64]!, 61, 61]
-  | [] => []
-
-def b64val (c : Nat) : Option Nat :=
-  if 65 ≤ c ∧ c ≤ 90 then some (c - 65)
-  else if 97 ≤ c ∧ c ≤ 122 then some (c - 97 + 26)
-  else if 48 ≤ c ∧ c ≤ 57 then some (c - 48 + 52)
-  else if c = 43 then some 62 else if c = 47 then some 63 else none
-
-/-- `base64.StdEncoding.DecodeString` (strict: padding required, no trailing bits check beyond Go's default) -/
-def b64dec : List Nat → Option (List Nat)
-  | [] => some []
-  | [a, b, 61, 61] =>
-    match b64val a, b64val b with
-    | some x, some y => some [(x * 64 + y) / 16 % 256]
-    | _, _ => none
-  | [a, b, c, 61] =>
-    match b64val a, b64val b, b64val c with
-    | some x, some y, some z => let n := (x * 64 + y) * 64 + z; some [n / 1024 % 256, n / 4 % 256]
-    | _, _, _ => none
-  | a :: b :: c :: d :: rest =>
-    match b64val a, b64val b, b64val c, b64val d, b64dec rest with
-    | some x, some y, some z, some w, some tl =>
-      let n := ((x * 64 + y) * 64 + z) * 64 + w
-      some (n / 65536 % 256 :: n / 256 % 256 :: n % 256 :: tl)
-    | _, _, _, _, _ => none
-  | _ => none
-
-def hexEnc (bs : List Nat) : List Nat := (hexOf bs).toList.map Char.toNat
-def hexDec (t : List Nat) : Option (List Nat) :=
-  if t.isEmpty then some [] else unhexBytes (String.ofList (t.map Char.ofNat))
-
-def mkTxt (ft : List (Nat × List Nat)) (pf : List (List Nat × Nat)) : Txt where
-  dec := decDigits
-  undec := undecDigits
-  ffmt := fun n => (ft.lookup n).getD [63]
-  fparse := fun t => pf.lookup t
-  b64 := b64enc
-  unb64 := b64dec
-  hex := hexEnc
-  unhex := hexDec
+def mkTxt (ft : List (Nat × List Nat)) (pf : List (List Nat × Nat)) : Txt :=
+  mkTxtF (fun n => (ft.lookup n).getD [63]) (fun t => pf.lookup t)
 
 def splitOnC (s : String) (c : Char) : List String := s.splitOn (String.singleton c)
 
@@ -209,6 +153,7 @@ structure St where
   lastVal : Option Val := none
   implPb : Option (List Nat) := none
   pendingDec : Option (List Nat) := none
+  pendingJ : Bool := false
   fails : List String := []
 
 def onOp (s : St) (toks : List String) : St × List String :=
@@ -227,7 +172,7 @@ def onOp (s : St) (toks : List String) : St × List String :=
   | ["dec", root, h] =>
     match rootIdx root, unhexBytes h with
     | some m, some bs =>
-      let r := (decode S D m bs).map (fun v => canon S (.slots (S.slots m)) (if migratesPb root then migrate S m v else v))
+      let r := (decodeRoot S D root m bs).map (fun v => canon S (.slots (S.slots m)) v)
       ({ s with pendingDec := some bs }, [match r with | some v => s!"obs ok {showVal v}" | none => "obs err"])
     | _, _ => (s, ["obs bad-op"])
   | ["jenc", root, v, ft] =>
@@ -238,8 +183,8 @@ def onOp (s : St) (toks : List String) : St × List String :=
   | ["jdec", root, j, pf] =>
     match rootIdx root, readJ j, parsePf ((pf.splitOn "=").getD 1 "") with
     | some m, some j, some pf =>
-      let r := (fromJson S (mkTxt [] pf) D m j).map (fun v => canon S (.slots (S.slots m)) (if migratesJson root then migrate S m v else v))
-      ({ s with pendingDec := none }, [match r with | some v => s!"obs ok {showVal v}" | none => "obs err"])
+      let r := (fromJsonRoot S (mkTxt [] pf) D root m j).map (fun v => canon S (.slots (S.slots m)) v)
+      ({ s with pendingDec := none, pendingJ := true }, [match r with | some v => s!"obs ok {showVal v}" | none => "obs err"])
     | _, _, _ => (s, ["obs bad-op"])
   | "fuzz" :: _ => ({ s with pendingDec := none }, ["obs done"])
   | _ => (s, ["obs bad-op"])
@@ -247,7 +192,24 @@ def onOp (s : St) (toks : List String) : St × List String :=
 /-- search oracle on the IMPLEMENTATION's observations (no model involved):
  * `size`: the reported size equals the length of the bytes the marshaler produced;
  * `pbrt`: when the bytes just produced by the marshaler for value `v` are decoded, the result is `v`. -/
-def onObs (s : St) (toks : List String) : St :=
+def onObs (s0 : St) (toks : List String) : St :=
+  let s := { s0 with pendingJ := false }
+  -- `jsonrt`: in a `value` case the document just decoded is the marshaler's own document for the value of the last `enc`:
+  -- the result must be that value with NaNs canonicalised (`normV`), as observed (`canon`)
+  let s := match toks, s0.pendingJ, s0.lastVal with
+    | ["obs", "ok", v], true, some v0 =>
+      let m := (rootIdx s0.root).getD 0
+      let md := Mode.slots (S.slots m)
+      if s0.kind == "value" && conf S false md v0 then
+        if readVal v == some (canon S md (normV S md v0)) then s
+        else { s with fails := s.fails ++ [s!"prop jsonrt=FAIL sig=C08/json/roundtrip/lean-oracle decoded={v}"] }
+      else s
+    | ["obs", "err"], true, some v0 =>
+      let m := (rootIdx s0.root).getD 0
+      if s0.kind == "value" && conf S false (Mode.slots (S.slots m)) v0 then
+        { s with fails := s.fails ++ ["prop jsonrt=FAIL sig=C08/json/roundtrip/own-document-rejected"] }
+      else s
+    | _, _, _ => s
   match toks with
   | ["obs", "pb", h, sz] =>
     match unhexBytes h with
@@ -284,7 +246,7 @@ def handler : Handler St where
   onCase := fun s toks => { s with kind := (kv toks "kind").getD "", root := (kv toks "root").getD "" }
   onOp := onOp
   onObs := onObs
-  onEnd := fun s => if s.fails.isEmpty then ["prop size=ok", "prop pbrt=ok"] else s.fails
+  onEnd := fun s => if s.fails.isEmpty then ["prop size=ok", "prop pbrt=ok", "prop jsonrt=ok"] else s.fails
 
 end OtelVerif.Drivers.C08
 
